@@ -14,4 +14,4 @@ if [ -n "$RUN_TESTS" ]; then
 fi
 echo "== check $PROP ($TIER) on patched tree"
 mkdir -p /tmp/seed_evidence /tmp/seed_replays
-cd /verif && VERIF_EVIDENCE_DIR=/tmp/seed_evidence VERIF_REPLAYS_DIR=/tmp/seed_replays VERIF_REPO=$WT ./harness/check $PROP --tier $TIER 2>&1 | grep -E "VIOLATION|KNOWN|ok in|FAIL in" | head -5
+cd /verif && VERIF_EVIDENCE_DIR=/tmp/seed_evidence VERIF_REPLAYS_DIR=/tmp/seed_replays VERIF_REPO=$WT ./harness/check $PROP --tier $TIER 2>&1 | grep -E "^VIOLATION|ok in|FAIL in" | head -6
